@@ -92,40 +92,89 @@ def json_plain(v):
 
 def rich_cases(ctx):
     """deltas whose payload holds the other documented scalar types (Decimal, bytes, aware datetimes, date, time, timedelta, UUID, complex,
-    frozenset): outside the pickle vocabulary of the Lean model, so only the behavioural clauses are checked on the implementation"""
+    frozenset) and numpy arrays, in the ordered and the ignore-order mode: outside the pickle vocabulary of the Lean model, so only the
+    behavioural clauses are checked on the implementation"""
     from deepdiff import DeepDiff, Delta
     from ..deltas import py_eq_t
     from . import _difffam as FAM
-    for (t1, t2) in FAM.rich_pairs(ctx, 300 if ctx.thorough() else 60):
+    import numpy as np
+
+    def same(a, b):
+        if isinstance(a, np.ndarray) or isinstance(b, np.ndarray):
+            return isinstance(a, np.ndarray) and isinstance(b, np.ndarray) and a.shape == b.shape and bool((a == b).all())
+        if isinstance(a, dict) and isinstance(b, dict):
+            return set(a) == set(b) and all(same(a[k], b[k]) for k in a)
+        if isinstance(a, list) and isinstance(b, list):
+            return len(a) == len(b) and all(same(x, y) for x, y in zip(a, b))
+        return py_eq_t(a, b)
+
+    def payload_eq(x, y):
+        try:
+            return bool(x == y)
+        except ValueError:            # numpy arrays inside the payload: compare their text
+            return repr(x) == repr(y)
+
+    pairs = [(p, 'ordered') for p in FAM.rich_pairs(ctx, 300 if ctx.thorough() else 60)]
+    pairs += [(p, 'ignore_order') for p in FAM.rich_pairs(ctx, 150 if ctx.thorough() else 30, sets=False)]
+    arrs = [np.array([1, 2, 3]), np.array([1, 5, 3]), np.array([1.5, 2.5, 3.5]), np.array([[1, 2], [3, 4]]), np.array([[1, 2], [3, 5]]), np.array([0, 0, 0]), np.array([[1.5, 0.0], [0.0, 2.5]])]
+    for _ in range(60 if ctx.thorough() else 16):
+        a = ctx.rng.choice(arrs)
+        same_shape = [b for b in arrs if b.shape == a.shape]
+        b = ctx.rng.choice(same_shape)
+        w = ctx.rng.choice([lambda x: x, lambda x: {'a': x, 'n': 1}, lambda x: [0, x]])
+        pairs.append(((w(a.copy()), w(b.copy())), 'numpy'))
+    for _ in range(24 if ctx.thorough() else 8):          # one-dimensional arrays of different lengths (items added / removed)
+        k = ctx.rng.randint(2, 5)
+        a = np.array([ctx.rng.randint(0, 9) for _ in range(k)])
+        b = np.array(list(a[: ctx.rng.randint(1, k)]) + [ctx.rng.randint(10, 19) for _ in range(ctx.rng.randint(0, 3))])
+        if ctx.rng.random() < 0.3:
+            a, b = a.astype(float) + 0.5, b.astype(float) + 0.5
+        w = ctx.rng.choice([lambda x: x, lambda x: {'a': x, 'n': 1}])
+        pairs.append(((w(a.copy()), w(b.copy())), 'numpy'))
+    NP_ALLOW = {'numpy._core.multiarray.scalar', 'numpy._core.multiarray._reconstruct', 'numpy.core.multiarray.scalar', 'numpy.core.multiarray._reconstruct',
+                'numpy.dtype', 'numpy.ndarray', 'numpy.int64', 'numpy.float64', 'numpy.int32', 'numpy.float32'}
+    for ((t1, t2), mode) in pairs:
+        kw = dict(ignore_order=True, report_repetition=True) if mode == 'ignore_order' else {}
+        allow = NP_ALLOW if mode == 'numpy' else None           # finding F44: the dump of a numpy delta names numpy globals that are not on the allow-list
         for bidir in (False, True):
-            case = {'t1': repr(t1), 't2': repr(t2), 'mode': 'rich leaves', 'bidirectional': bidir, 'always_include_values': False}
+            case = {'t1': repr(t1), 't2': repr(t2), 'mode': 'rich leaves / ' + mode, 'bidirectional': bidir, 'always_include_values': False}
             ctx.evaluations += 1
+            root_np = isinstance(t1, np.ndarray)
+            add = (lambda d, x: d + x) if root_np else (lambda d, x: x + d)
             try:
-                diff = DeepDiff(t1, t2)
+                diff = DeepDiff(t1, t2, **kw)
                 d = Delta(diff, bidirectional=bidir, raise_errors=True)
-                want = copy.deepcopy(t1) + d
+                built = copy.deepcopy(d.diff)
+                want = add(d, copy.deepcopy(t1))
             except Exception as e:
                 ctx.count('delta_build_failed:' + type(e).__name__); continue
-            ctx.count('mode:rich_leaves')
+            ctx.count('mode:rich_' + mode)
+            if not payload_eq(d.diff, built):
+                ctx.violate(case, 'applying the delta changed its payload: %r, built as %r' % (d.diff, built))
             if d.diff:
-                ctx.nontriv((repr(t1), repr(t2), 'rich', bidir))
+                ctx.nontriv((repr(t1), repr(t2), mode, bidir))
             try:
                 b = d.dumps()
-                d2 = Delta(b, bidirectional=bidir, raise_errors=True)
+                d2 = Delta(b, bidirectional=bidir, raise_errors=True, safe_to_import=allow)
             except Exception as e:
                 ctx.violate(case, 'own dump does not load: %s: %s' % (type(e).__name__, str(e)[:100])); continue
-            if not (d2.diff == d.diff):              # not the bytes: the pickle of a set follows its iteration order, which a rebuild may change
+            if not payload_eq(d2.diff, d.diff):              # not the bytes: the pickle of a set follows its iteration order, which a rebuild may change
                 ctx.violate(case, 'the reloaded payload %r differs from the original %r' % (d2.diff, d.diff))
-            try:
-                got = copy.deepcopy(t1) + d2
-                if not py_eq_t(got, want):
-                    ctx.violate(case, 'the reloaded delta gives %r, the original %r' % (got, want))
-                if bidir:
-                    a, b_ = copy.deepcopy(t2) - d, copy.deepcopy(t2) - d2
-                    if not py_eq_t(a, b_):
-                        ctx.violate(case, 'subtracting the reloaded delta gives %r, the original %r' % (b_, a))
-            except Exception as e:
-                ctx.violate(case, 'the reloaded delta raised %s where the original did not: %s' % (type(e).__name__, str(e)[:100]))
+            def outc(f):
+                try:
+                    return ('ok', f())
+                except Exception as e:
+                    return ('raise', type(e).__name__)
+            got = outc(lambda: add(d2, copy.deepcopy(t1)))
+            if got[0] != 'ok' or not same(got[1], want):
+                ctx.violate(case, 'the reloaded delta gives %r, the original %r' % (got, want))
+            if bidir and not root_np:
+                a_, b_ = outc(lambda: copy.deepcopy(t2) - d), outc(lambda: copy.deepcopy(t2) - d2)
+                if a_[0] != b_[0] or (a_[0] == 'ok' and not same(a_[1], b_[1])) or (a_[0] == 'raise' and a_[1] != b_[1]):
+                    ctx.violate(case, 'subtracting the reloaded delta gives %r, the original %r' % (b_, a_))
+            d3 = outc(lambda: Delta(d2.dumps(), bidirectional=bidir, raise_errors=True, safe_to_import=allow))
+            if d3[0] != 'ok' or not payload_eq(d3[1].diff, d.diff):
+                ctx.violate(case, 'a second dump / load cycle changes the payload (%r)' % (d3[1] if d3[0] != 'ok' else d3[1].diff,))
 
 
 def compare_func_cases(ctx):
@@ -196,6 +245,7 @@ def run(ctx, impl_only=False):
         pairs.append(gflat.pair(3) if i % 4 == 0 else g.pair(3))
     compare_func_cases(ctx)
     rich_cases(ctx)
+    core.witnesses(ctx, ID, {'F44': f44_witness})
     tmpdir = tempfile.mkdtemp(prefix='verif_c14_')
     enc_lines, enc_meta, vm_lines, vm_meta = [], [], [], []
     try:
@@ -343,6 +393,18 @@ def run(ctx, impl_only=False):
                     ctx.diverge(case, got[:600], ref[:600], op='ENC-model-dump-on-real-unpickler')
     finally:
         shutil.rmtree(tmpdir, ignore_errors=True)
+
+
+def f44_witness():
+    """finding F44: the dump of a delta between numpy arrays loads without any safe_to_import"""
+    import numpy as np
+    from deepdiff import DeepDiff, Delta
+    d = Delta(DeepDiff(np.array([[1, 2], [3, 4]]), np.array([[1, 2], [3, 5]])))
+    try:
+        Delta(d.dumps())
+        return True
+    except Exception:
+        return False
 
 
 def search(ctx):
